@@ -22,6 +22,8 @@ func init() {
 			rowIDFlowRule(c, "C05.rowidflow")
 		})
 	addRule("C01", "C01.rowidflow (= C05.rowidflow).", func(c *Ctx) { rowIDFlowRule(c, "C01.rowidflow") })
+	addRule("C04", "C04.nostate (= C05.nostate: package-level objects — a memo, a registry, a shared hasher or buffer — are written by every caller; concurrent queries race on them).", func(c *Ctx) { noPackageStateRule(c, "C04.nostate") })
+	addRule("C15", "C15.nostate (= C05.nostate: a process-wide registry of open files outlives a failed open).", func(c *Ctx) { noPackageStateRule(c, "C15.nostate") })
 	addRule("C08", "C08.nostate (= C05.nostate: a memo keyed by the Query pointer makes the second index answer with the first one's data).", func(c *Ctx) { noPackageStateRule(c, "C08.nostate") })
 	addRule("C03", "C03.nostate (= C05.nostate); C03.cachesites — the result cache is read and written only by the eval methods of the expression types (keyed by their own cacheKey, see keypair): other code has no expression whose key it could use.",
 		func(c *Ctx) {
@@ -100,6 +102,34 @@ func noPackageStateRule(c *Ctx, rule string) {
 				if strings.HasPrefix(name, "(*sync.Map).") && syncMapMut[name[len("(*sync.Map)."):]] && len(x.Call.Args) > 0 {
 					if g = isOwnGlobal(x.Call.Args[0]); g != nil {
 						what = "updated (sync.Map." + name[len("(*sync.Map)."):] + ")"
+					}
+				}
+				// a method with pointer receiver called on a package-level object of a library type that is neither a
+				// synchronisation primitive nor a logger: a shared hasher, buffer, builder, random source … is state that
+				// every caller mutates (and races on)
+				if g == nil && !x.Call.IsInvoke() && len(x.Call.Args) > 0 {
+					if f := calleeFunc(&x.Call); f != nil && f.Signature.Recv() != nil && !c.w.inModule(f) {
+						recv := x.Call.Args[0]
+						var gg *ssa.Global
+						if ld, ok := recv.(*ssa.UnOp); ok && ld.Op == token.MUL {
+							gg = isOwnGlobal(ld.X) // var h = xxhash.New(): the pointer is loaded from the variable
+						} else {
+							gg = isOwnGlobal(recv) // var b bytes.Buffer: the variable's address is the receiver
+						}
+						if gg != nil {
+							if _, isPtr := f.Signature.Recv().Type().(*types.Pointer); isPtr {
+								pkg := ""
+								if f.Pkg != nil {
+									pkg = f.Pkg.Pkg.Path()
+								}
+								switch pkg {
+								case "sync", "sync/atomic", "log", "log/slog":
+								default:
+									g = gg
+									what = "used through " + shortName(name) + " (a method that changes the shared object)"
+								}
+							}
+						}
 					}
 				}
 			}
@@ -1003,5 +1033,247 @@ func evalNilRule(c *Ctx, rule string) {
 	}
 	if n == 0 {
 		c.r.undecided(rule, "<vacuity>", "no successful return in any eval method")
+	}
+}
+
+func init() {
+	addRule("C17", "C17.keyorder — nothing that depends on the iteration order of a map flows into the key of the driver's connection cache (ranging over url.Values to build the key makes two opens of one DSN disagree about the key, and the second blocks on the file lock).",
+		func(c *Ctx) { keyOrderRule(c, "C17.keyorder") })
+	bal := "a counter of the parser that is both incremented and decremented (a nesting-depth guard) is decremented on every path after each increment: a counter that only grows turns a limit on depth into a limit on the length of the query, and the formatter's output for a wide expression is rejected."
+	addRule("C09", "C09.counterbalance — "+bal, func(c *Ctx) { counterBalanceRule(c, "C09.counterbalance") })
+	addRule("C10", "C10.counterbalance — "+bal, func(c *Ctx) { counterBalanceRule(c, "C10.counterbalance") })
+}
+
+// keyOrderRule (refutation): forward taint from the key/value of every `range` over a map in the open function's scope;
+// sinks are stores into fields of the connection-cache key type and the key operand of lookups/updates of the cache map.
+// A value that goes through a sort call is considered order-independent from there on.
+func keyOrderRule(c *Ctx, rule string) {
+	if c.a.DriverT == nil || c.a.DrvOpenFile == nil {
+		return
+	}
+	var cache *types.Var
+	var keyT types.Type
+	if st, ok := c.a.DriverT.Underlying().(*types.Struct); ok {
+		for i := 0; i < st.NumFields(); i++ {
+			if m, ok := st.Field(i).Type().Underlying().(*types.Map); ok && c.a.FileConnT != nil && namedOf(m.Elem()) == c.a.FileConnT {
+				cache, keyT = st.Field(i), m.Key()
+			}
+		}
+	}
+	if cache == nil {
+		return
+	}
+	isKeyStructAddr := func(v ssa.Value) bool {
+		fa, ok := v.(*ssa.FieldAddr)
+		if !ok {
+			return false
+		}
+		pt, ok := fa.X.Type().Underlying().(*types.Pointer)
+		return ok && types.Identical(pt.Elem(), keyT)
+	}
+	n, bad := 0, 0
+	for _, fn := range c.scope(c.a.DrvOpenFile, 2) {
+		allInstrs(fn, func(i ssa.Instruction) {
+			rg, ok := i.(*ssa.Range)
+			if !ok {
+				return
+			}
+			if _, isMap := rg.X.Type().Underlying().(*types.Map); !isMap {
+				return
+			}
+			n++
+			tainted := map[ssa.Value]bool{}
+			var work []ssa.Value
+			add := func(v ssa.Value) {
+				if v != nil && !tainted[v] {
+					tainted[v] = true
+					work = append(work, v)
+				}
+			}
+			for _, r := range referrers(rg) {
+				if nx, ok := r.(*ssa.Next); ok {
+					add(nx)
+				}
+			}
+			var sink ssa.Instruction
+			for len(work) > 0 && sink == nil {
+				v := work[0]
+				work = work[1:]
+				for _, u := range referrers(v) {
+					switch x := u.(type) {
+					case *ssa.Extract, *ssa.BinOp, *ssa.Phi, *ssa.Convert, *ssa.ChangeType, *ssa.MakeInterface, *ssa.Slice, *ssa.UnOp, *ssa.Index, *ssa.Field:
+						add(x.(ssa.Value))
+					case *ssa.Call:
+						nm := calleeName(&x.Call)
+						if strings.HasPrefix(nm, "sort.") || strings.HasPrefix(nm, "slices.Sort") {
+							continue // sorted: order-independent from here on
+						}
+						add(x)
+					case *ssa.Store:
+						if x.Val == v {
+							if isKeyStructAddr(x.Addr) {
+								sink = x
+							} else if al, ok := peelCell(x.Addr).(*ssa.Alloc); ok {
+								// a local variable: its later loads carry the taint
+								for _, r := range referrers(al) {
+									if ld, ok := r.(*ssa.UnOp); ok {
+										add(ld)
+									}
+								}
+							}
+						}
+					case *ssa.Lookup:
+						if x.Index == v && path(x.X).lastField() == cache {
+							sink = x
+						}
+					case *ssa.MapUpdate:
+						if x.Key == v && path(x.Map).lastField() == cache {
+							sink = x
+						}
+					}
+				}
+			}
+			if sink != nil {
+				bad++
+				c.r.bad(rule, fmt.Sprintf("%s: range over map#%d", safeFname(fn), n), "the key of the driver's connection cache is built from values in the iteration order of a map, which differs from call to call: a second open of the same DSN computes a different key, misses the cached connection, and blocks on the file lock while holding the driver mutex", []string{c.w.ipos(sink)}, c.w.ipos(rg))
+			}
+		})
+	}
+	if bad == 0 {
+		c.r.ok(rule, safeFname(c.a.DrvOpenFile), "no map iteration order reaches the connection-cache key", c.w.pos(c.a.DrvOpenFile.Pos()))
+	}
+}
+
+// counterBalanceRule (refutation; no instance on a parser without such a counter): integer fields of the parser type
+// that are incremented somewhere and decremented somewhere. In every parser function, from each increment (a store of
+// field+const, or a call of a parser method that only increments) every path to a return passes a decrement (same
+// forms, or a deferred one). The diverging error helper ends a path.
+func counterBalanceRule(c *Ctx, rule string) {
+	ps := c.a.PS
+	if ps == nil || ps.ParserT == nil {
+		return
+	}
+	delta := func(i ssa.Instruction, f *types.Var) int {
+		st, ok := i.(*ssa.Store)
+		if !ok {
+			return 0
+		}
+		fa, ok := st.Addr.(*ssa.FieldAddr)
+		if !ok || fieldOf(fa.X.Type(), fa.Field) != f {
+			return 0
+		}
+		b, ok := st.Val.(*ssa.BinOp)
+		if !ok || srcField(b.X) != f {
+			return 0
+		}
+		k, isK := constInt(b.Y)
+		if !isK {
+			return 0
+		}
+		switch b.Op {
+		case token.ADD:
+			return int(k)
+		case token.SUB:
+			return -int(k)
+		}
+		return 0
+	}
+	st, ok := ps.ParserT.Underlying().(*types.Struct)
+	if !ok {
+		return
+	}
+	var fns []*ssa.Function
+	for _, fn := range c.w.ModFuncs {
+		if c.w.pkgPathOf(fn) == pkgParser && fn.Blocks != nil {
+			fns = append(fns, fn)
+		}
+	}
+	n := 0
+	for fi := 0; fi < st.NumFields(); fi++ {
+		f := st.Field(fi)
+		if b, ok := f.Type().Underlying().(*types.Basic); !ok || b.Info()&types.IsInteger == 0 {
+			continue
+		}
+		// helpers whose net effect is +/-: a function with increments only / decrements only
+		plusFn, minusFn := map[*ssa.Function]bool{}, map[*ssa.Function]bool{}
+		anyPlus, anyMinus := false, false
+		for _, fn := range fns {
+			p, m := 0, 0
+			allInstrs(fn, func(i ssa.Instruction) {
+				if d := delta(i, f); d > 0 {
+					p++
+				} else if d < 0 {
+					m++
+				}
+			})
+			if p > 0 {
+				anyPlus = true
+			}
+			if m > 0 {
+				anyMinus = true
+			}
+			if p > 0 && m == 0 {
+				plusFn[fn] = true
+			}
+			if m > 0 && p == 0 {
+				minusFn[fn] = true
+			}
+		}
+		if !anyPlus || !anyMinus {
+			continue // a look-ahead count, a position: not a balanced counter
+		}
+		isInc := func(i ssa.Instruction) bool {
+			if delta(i, f) > 0 {
+				return true
+			}
+			if call, ok := i.(*ssa.Call); ok {
+				return plusFn[calleeFunc(&call.Call)]
+			}
+			return false
+		}
+		isDec := func(i ssa.Instruction) bool {
+			if delta(i, f) < 0 {
+				return true
+			}
+			if cc := callCommon(i); cc != nil {
+				if _, isGo := i.(*ssa.Go); !isGo {
+					return minusFn[calleeFunc(cc)]
+				}
+			}
+			return false
+		}
+		for _, fn := range fns {
+			if plusFn[fn] || minusFn[fn] {
+				continue // the inc/dec helpers themselves
+			}
+			k := 0
+			allInstrs(fn, func(i ssa.Instruction) {
+				if !isInc(i) {
+					return
+				}
+				n++
+				k++
+				key := fmt.Sprintf("%s: %s increment#%d", safeFname(fn), f.Name(), k)
+				// a decrement deferred before the increment covers every exit
+				deferred := false
+				allInstrs(fn, func(j ssa.Instruction) {
+					if d, ok := j.(*ssa.Defer); ok && isDec(d) && d.Block().Dominates(i.Block()) {
+						deferred = true
+					}
+				})
+				if deferred {
+					c.r.ok(rule, key, "a deferred decrement covers every exit", c.w.ipos(i))
+					return
+				}
+				if p := c.fc.pathAvoiding(fn, i, func(x ssa.Instruction) bool { _, r := x.(*ssa.Return); return r }, isDec); p != nil {
+					c.r.bad(rule, key, "the parser's counter "+f.Name()+" is incremented here but a path returns without decrementing it: it then counts how many such constructs the input contains instead of how deeply they are nested, and a long but shallow query (which the formatter produces for a wide expression) is rejected", []string{c.w.ipos(i)}, c.fc.witnessStrings(p)...)
+				} else {
+					c.r.ok(rule, key, "decremented on every path to a return", c.w.ipos(i))
+				}
+			})
+		}
+	}
+	if n == 0 {
+		c.r.ok(rule, "parser", "the parser keeps no balanced counter")
 	}
 }
